@@ -139,4 +139,11 @@ PROPS = {
                                         "tools/harness/uepolicy.go: independent Annex-D encoders for wire inputs; the PLMN oracle compares SetPlmnDigit with nasConvert.PlmnIDToNas and the TS 24.008 layout"],
         rule="three decoders: every input of length 0..1, length 2 sampled (thorough: all 65 536), random 3..16 octets biased to small length fields; well-formed lists (0..3 sublists x 0..3 instructions x 0..3 parts, empty and 300-octet contents) whole, truncated at every octet, every 16-bit window set to 0/1/2/3/0xffff, mutated, and wrapped as command / reject messages; results likewise; messages built through the API and header/body mismatches; all 256 message types; PLMN setters of sublist and sub-result for every MCC 100..999 x 7 MNCs (thorough: all 990) and values around the accepted range; non-trivial = distinct op answered with a value",
     ),
+    "C10": dict(
+        level="proof", modules=CODEC_MODS + ["NasVerif.Props.C10"], parts=["Codec"],
+        streams=[("codec-dec", 4000, 40000), ("codec-enc", 1200, 12000)], oracle="C10", trusted_base=TB_CODEC + [
+            "modelled, not verified (Codec/Heap.lean): bytes.NewBuffer aliases its argument and only reads it, binary.Read copies into its destination, make returns fresh memory, binary.Write / Buffer.Write append — Go library semantics",
+            "the translator's closed statement language: a codec statement outside the IR (e.g. `a.X.Buffer = buffer.Next(n)`) fails the run and is searched with the aliasing oracles on the real code"],
+        rule="decode stream (table-driven valid, boundary, truncated, reordered, malformed inputs for all 45 messages and the three entry points): input snapshot before/after, decode twice, flip every input octet afterwards and re-read the message, scribble over every slice (and its spare capacity) of the message and re-read the input; encode stream (well-formed messages): encode into a pre-filled buffer with spare capacity, twice, compare prefix / outputs / deep message snapshot, flip the output and re-read the message; non-trivial = distinct op the implementation accepts",
+    ),
 }
